@@ -60,14 +60,21 @@ func VerifH_SYS_C18() {
 			verifAssert(len(b.conns) > at.conn+1, "C18.redial_after_timeout")
 		}
 		if dropped && withOnError {
-			found := false
+			nrte, ndrop := 0, 0
 			for _, e := range errs {
 				var rte *RequestTimeoutError
 				if errors.As(e, &rte) {
-					found = true
+					nrte++
 				}
 			}
-			verifAssert(found, "C18.request_timeout_error_reported")
+			for _, at := range b.attempts {
+				if at.outcome == 'd' {
+					ndrop++
+				}
+			}
+			verifAssert(nrte >= 1, "C18.request_timeout_error_reported")
+			// first transmissions and retransmissions alike: one report per silently dropped answer
+			verifAssert(nrte >= ndrop, "C18.every_timeout_is_a_request_timeout_error")
 		}
 		for _, r := range s.reqs {
 			if r.accepted {
